@@ -6,6 +6,7 @@ import Std.Data.String.ToNat
 import GoZero.Extracted.C19
 import GoZero.C19.Lua
 import GoZero.C19.Proofs
+import GoZero.C19.Ids
 namespace GoZero.C19.Tie
 open GoZero.C19
 open GoZero.C19.Lua
@@ -117,6 +118,144 @@ theorem tie_newFields : newFields = ["store: store", "key: key", "id: stringx.Ra
 
 theorem tie_setExpireShape : setExpireShape = ["call uint32", "call atomic.StoreUint32"] := by decide
 
+/-! ### round 4: the Go side with integer WIDTHS, the reply decoding and the script arguments as FUNCTIONS
+
+The extractor's width-aware translator (`extract/c19.go`, `c19W`) types every sub-expression (`seconds` is the
+`uint32` that `atomic.LoadUint32` returned, untyped constants take the type of the other operand, arithmetic
+wraps at the operand type's width, `int(x)` of an unsigned value zero-extends) and emits `BitVec` terms in
+which Go's `int` is `BitVec W`.  `W = 64` on amd64 / arm64 (the platforms the correspondence run uses). -/
+
+/-- **the lease handed to `strconv.Itoa` is `seconds·1000 + 500` for EVERY `uint32` value of `seconds`** —
+no wrap anywhere (64-bit `int`): the conversion `int(seconds)` comes before the multiplication.  With the
+multiplication inside the conversion (`int(seconds*millisPerSecond + tolerance)`) the emitted term is
+`setWidth 64 (seconds * 1000#32 + 500#32)` and this fails for `seconds ≥ 4294967`. -/
+theorem tie_leaseArgW (seconds : BitVec 32) :
+    (leaseArgW 64 seconds).toInt = ((seconds.toNat * 1000 + 500 : Nat) : Int) ∧
+    (leaseArgW 64 seconds).toInt = (leaseMs seconds.toNat : Int) := by
+  have h := seconds.isLt
+  have e : (leaseArgW 64 seconds).toInt = ((seconds.toNat * 1000 + 500 : Nat) : Int) := by
+    unfold leaseArgW
+    rw [BitVec.toInt_eq_toNat_cond]
+    simp only [BitVec.toNat_add, BitVec.toNat_mul, BitVec.toNat_setWidth, BitVec.toNat_ofNat]
+    omega
+  exact ⟨e, by rw [e]; rfl⟩
+
+/-- the types: `seconds` is loaded as `uint32`, the value printed by `strconv.Itoa` is a (signed) `int` -/
+theorem tie_leaseArgType : leaseArgType = "uint32 -> int" := by decide
+
+/-- the five boundary values of the task list, evaluated on the translated term -/
+theorem tie_leaseArgW_boundaries :
+    [0, 1, 4294967, 4294968, 4294967295].map (fun s => (leaseArgW 64 (BitVec.ofNat 32 s)).toInt) =
+      [500, 1500, 4294967500, 4294968500, 4294967295500] := by decide
+
+/-- `SetExpire(seconds int)` stores `uint32(seconds)`: the low 32 bits — the model's `toUint32`, for every `int` -/
+theorem tie_setExpireArgW (s : Int) : (setExpireArgW 64 (BitVec.ofInt 64 s)).toNat = toUint32 s := by
+  unfold setExpireArgW toUint32
+  rw [BitVec.signExtend_eq_setWidth_of_le _ (by omega)]
+  simp only [BitVec.toNat_setWidth, BitVec.toNat_ofInt]
+  omega
+
+/-- … so a value in the property's domain `0 ≤ s < 2³²` is stored unchanged -/
+theorem tie_setExpireArgW_in_range (s : Nat) (h : s < 4294967296) :
+    (setExpireArgW 64 (BitVec.ofInt 64 (s : Int))).toNat = s := by
+  rw [tie_setExpireArgW]; unfold toUint32; omega
+
+/-- SetExpire stores into the very word AcquireCtx loads from, both atomically; the field is a `uint32` -/
+theorem tie_secondsWord :
+    secondsWord = ["store atomic.StoreUint32 &rl.seconds", "load atomic.LoadUint32 &rl.seconds"] ∧
+    secondsField = ["uint32"] := by decide
+
+/-- **SetExpire → Acquire, Go side end to end**: the lease text the lock script receives after `SetExpire(s)`
+(`0 ≤ s < 2³²`) is the decimal numeral of `s·1000 + 500`. -/
+theorem tie_setExpire_then_lease (s : Nat) (h : s < 4294967296) :
+    (leaseArgW 64 (setExpireArgW 64 (BitVec.ofInt 64 (s : Int)))).toInt = ((s * 1000 + 500 : Nat) : Int) := by
+  have e := tie_setExpireArgW_in_range s h
+  rw [(tie_leaseArgW _).1, e]
+
+/-- what go-redis hands to the Go code (trusted reading of go-redis: a Lua `false`/nil reply is the error
+`red.Nil`; status and bulk replies are Go strings; integer replies are `int64`; a failed type assertion
+leaves the zero value) -/
+structure GoResp where
+  errIsNil : Bool
+  errNonNil : Bool
+  respNil : Bool
+  isString : Bool
+  isInt64 : Bool
+  replyS : String
+  replyI : Int
+
+def goResp : Reply → GoResp
+  | .nil => ⟨true, true, true, false, false, "", 0⟩
+  | .status s => ⟨false, false, false, true, false, s, 0⟩
+  | .bulk s => ⟨false, false, false, true, false, s, 0⟩
+  | .int n => ⟨false, false, false, false, true, "", n⟩
+
+/-- a round trip that failed (connection error, LOADING, …): `resp = nil`, `err` is not `red.Nil` -/
+def goFailed : GoResp := ⟨false, true, true, false, false, "", 0⟩
+
+def GoResp.app (g : GoResp) (f : Bool → Bool → Bool → Bool → Bool → String → Int → Bool × Bool) : Bool × Bool :=
+  f g.errIsNil g.errNonNil g.respNil g.isString g.isInt64 g.replyS g.replyI
+
+/-- **the statements of AcquireCtx after the script run, translated, ARE the model's `acquireReply`**: for
+every reply the result is `acquireReply r` and no error is returned; a failed round trip gives (false, err). -/
+theorem tie_acquireDecide :
+    (∀ r : Reply, (goResp r).app acquireDecide = (acquireReply r, false)) ∧
+    goFailed.app acquireDecide = (false, true) := by
+  refine ⟨fun r => ?_, by decide⟩
+  cases r <;> simp [GoResp.app, goResp, acquireDecide, acquireReply]
+  all_goals (split <;> simp_all)
+
+/-- **… of ReleaseCtx ARE the model's `releaseReply`** (`reply == 1` on an `int64`); the only reply that makes
+it return an error is nil (which delscript.lua never sends, `delScript_reply`). -/
+theorem tie_releaseDecide :
+    (∀ r : Reply, (goResp r).app releaseDecide = (releaseReply r, decide (r = .nil))) ∧
+    goFailed.app releaseDecide = (false, true) := by
+  refine ⟨fun r => ?_, by decide⟩
+  cases r <;> simp [GoResp.app, goResp, releaseDecide, releaseReply]
+  rename_i n
+  by_cases h : n = 1 <;> simp [h]
+
+/-- the script arguments as functions: KEYS = [key], ARGV = [id, lease] resp. [id] -/
+theorem tie_scriptArgs (key id lease : String) :
+    acquireKeys key id lease = [key] ∧ acquireArgv key id lease = [id, lease] ∧
+    releaseKeys key id lease = [key] ∧ releaseArgv key id lease = [id] := ⟨rfl, rfl, rfl, rfl⟩
+
+/-- **Acquire end to end, from the Go arguments to the store** (call site → script arguments → current
+lockscript.lua): for every store, key, id and every `uint32` value of `seconds`, running the script file of
+the tree with the KEYS/ARGV that AcquireCtx builds — the lease printed from the width-aware Go expression —
+is the model's `lockScript` with `leaseMs seconds`; and AcquireCtx's decoding of the reply is the model's. -/
+theorem tie_acquire_end_to_end (s : Store) (key id : String) (seconds : BitVec 32) :
+    let lease := Nat.repr (leaseArgW 64 seconds).toInt.toNat
+    runScript lockLua (acquireKeys key id lease) (acquireArgv key id lease) s =
+        some (lockScript s key id (leaseMs seconds.toNat)) ∧
+    (goResp (lockScript s key id (leaseMs seconds.toNat)).2).app acquireDecide =
+        ((acquireWith (fun _ => ⟨key, id⟩) ⟨s, fun _ => 0⟩ 0 seconds.toNat).2, false) := by
+  intro lease
+  have e : (leaseArgW 64 seconds).toInt.toNat = leaseMs seconds.toNat := by
+    rw [(tie_leaseArgW seconds).2]; simp
+  refine ⟨?_, ?_⟩
+  · show runScript lockLua [key] [id, Nat.repr (leaseArgW 64 seconds).toInt.toNat] s = _
+    rw [e]
+    exact tie_lockScript s key id _ (leaseMs_pos _)
+  · rw [tie_acquireDecide.1]; rfl
+
+/-- **Release end to end** (ReleaseCtx's KEYS/ARGV → current delscript.lua → decoding) -/
+theorem tie_release_end_to_end (s : Store) (key id : String) :
+    runScript delLua (releaseKeys key id "") (releaseArgv key id "") s = some (delScript s key id) ∧
+    ((goResp (delScript s key id).2).app releaseDecide).1 =
+        (release (fun _ => ⟨key, id⟩) ⟨s, fun _ => 0⟩ 0).2 := by
+  refine ⟨tie_delScript s key id, ?_⟩
+  rw [tie_releaseDecide.1]; rfl
+
+/-- non-vacuity / platform note: with a 32-bit `int` (GOARCH=386/arm) the same expression wraps from
+`seconds = 2147484` on — the 64-bit width is an assumption of `tie_leaseArgW` (props/C19.json). -/
+example : (leaseArgW 32 (BitVec.ofNat 32 2147483)).toInt = 2147483500 ∧
+    (leaseArgW 32 (BitVec.ofNat 32 2147484)).toInt < 0 := by decide
+
+example : (goResp (.status "OK")).app acquireDecide = (true, false) ∧ (goResp .nil).app acquireDecide = (false, false) ∧
+    (goResp (.int 1)).app releaseDecide = (true, false) ∧ (goResp (.int 0)).app releaseDecide = (false, false) := by
+  decide
+
 /-! ### every call is ONE store round trip (what `Cmds.real` was written against)
 
 `effectCalls` of the extractor lists every callee of a function except conversions, formatting, logging and
@@ -139,6 +278,9 @@ theorem tie_newLockCalls : newLockCalls = ["stringx.Randn"] := by decide
 theorem tie_scriptRunCtx :
     scriptRunCtxCalls = ["getRedis", "script.Run(ctx, conn, keys, args...).Result", "script.Run"] := by decide
 
+/-- the two package-level scripts are built by `NewScript`, which hands the text unchanged to go-redis -/
+theorem tie_newScript : newScriptBody = ["return red.NewScript(script)"] := by decide
+
 /-! ### the ids: `stringx.Randn(16)` -/
 
 /-- the alphabet has 62 different characters; an index is 6 bits of the source and is used only if it is
@@ -149,6 +291,22 @@ theorem tie_idAlphabet :
     Extracted.C19.letterIdxBits = 6 ∧
     letterIdxDerived = ["letterIdxMask = 1<<letterIdxBits - 1", "letterIdxMax = 63 / letterIdxBits"] := by
   decide
+
+/-- the derived constants evaluated (own evaluator with shifts, Go precedence): the mask is the `letterIdxBits`
+low bits, and `letterIdxMax` indices of `letterIdxBits` bits fit into the 63 bits of `Int63` -/
+theorem tie_randnConsts :
+    letterIdxMask = 2 ^ 6 - 1 ∧ Extracted.C19.letterIdxBits = 6 ∧ letterIdxMax = 10 ∧ letterIdxMax * 6 ≤ 63 ∧
+    randnShift = 6 := by decide
+
+/-- **the decision-making expressions of Randn's loop, translated, are the model's** (`Ids.lean`): the `j`-th index
+read from an `Int63` value is the model's draw, and an index is used iff the model's filter accepts it; the
+model's alphabet is the `letterBytes` of the tree and an accepted index selects `letterBytes[idx]`. -/
+theorem tie_randnLoop :
+    (∀ v, drawsOfInt63 v = (List.range letterIdxMax).map fun j => randnIdx (v >>> (randnShift * j))) ∧
+    (∀ idx, randnAccept idx = decide (idx < 62)) ∧
+    idAlphabet = Extracted.C19.letterBytes.toList ∧
+    Extracted.C19.letterBytes.length = 62 := by
+  refine ⟨fun v => rfl, fun idx => rfl, by decide, by decide⟩
 
 theorem tie_randnBody : randnBody =
     ["b := make([]byte, n)",
